@@ -169,7 +169,8 @@ def BodySim (δ : Nat) (K : Nat → κ → κ → Prop) (fs : FlagMap) (st : Sta
     K 0 rs.1.x.sink rw.1.x.sink ∧
     match rs.2.2 with
     | .transitioned => MRel δ 0 0 (fs rs.1.c.state).1 .none rs.1 rw.1 ∧ rs.1.c.entered = false
-    | .fell => CFix c0 rs.1.c ∧ ∃ ab'', MRel δ 0 0 ab'' .none rs.1 rw.1 ∧ (loops = true → (fs st).2.le ab'' = true)))
+    | .fell => CFix c0 rs.1.c ∧ ∃ ab'', MRel δ 0 0 ab'' .none rs.1 rw.1 ∧
+        (loops = true → (fs st).2.le ab'' = true) ∧ (loops = false → ab''.P = true)))
 
 /-- `reconsume`: un-consume one byte -/
 theorem RegsRel.unconsume {np : Nat} {ab ab' : Ab} {rs rw : Regs} (h : RegsRel δ 0 ab .none np rs rw)
@@ -245,8 +246,9 @@ theorem runSeq_sim (F : Frame inpS inpW δ) (hops : OpsSim env.ops inpS inpW δ 
         | none =>
           rw [htr] at hok
           rw [runSeq_none_none hrs htr, runSeq_none_none hrw htr]
-          refine Or.inr ⟨trivial, rfl, fun _ => ⟨hk1, hfix, ab', hm1, fun hl => ?_⟩⟩
-          simpa [hl] using hok
+          refine Or.inr ⟨trivial, rfl, fun _ => ⟨hk1, hfix, ab', hm1, fun hl => ?_, fun hl => ?_⟩⟩
+          · simpa [hl] using hok
+          · simpa [hl] using hok
         | some t =>
           rw [htr] at hok
           rw [runSeq_none_some hrs htr, runSeq_none_some hrw htr]
